@@ -114,6 +114,18 @@ class SDict:
         return "SDict%r" % (self.d,)
 
 
+class SADict:
+    """dict of concrete size whose keys may be symbolic scalars (pairwise distinct by construction);
+    insertion ordered association list"""
+
+    def __init__(self, keys=None, vals=None):
+        self.keys = list(keys or [])
+        self.vals = list(vals or [])
+
+    def __repr__(self):
+        return "SADict<%d>" % len(self.keys)
+
+
 class SymMap:
     """dict with symbolic scalar keys: has(k) -> z3 Bool, get(k) -> value,
     card: z3 Int (number of keys).  ``vtype`` is a type descriptor or None
